@@ -23,7 +23,8 @@ pub struct Opts {
     /// the output directory is a (not yet existing) directory of this name, given as raw bytes: a path is not text
     pub dir_name: Option<Vec<u8>>,
     /// the environment the tool runs in: 0 inherited, 1 Turkish locale + far time zone, 2 empty environment,
-    /// 3 another working directory with a relative --output, 4 the options given in the opposite order
+    /// 3 another working directory with a relative --output, 4 the options given in the opposite order, 5 TMPDIR missing,
+    /// 6 removed working directory, 7 a very deep working directory
     pub env: u8,
     /// a previous run into the same directory (history): its algorithm flag
     pub previous_run: Option<&'static str>,
@@ -121,11 +122,31 @@ fn judge(o: &Opts, bin: &std::path::Path, backend: &str, scratch: &std::path::Pa
             cmd.current_dir(&top);
             cmd.args(args_of(o, &rel, o.alg));
         }
+        5 => {
+            // the temporary directory the environment names does not exist
+            cmd.env("TMPDIR", top.join("no such tmp")).env("TEMP", "/nonexistent").env("TMP", "/nonexistent");
+            cmd.args(args_of(o, &dir, o.alg));
+        }
+        6 => {
+            // started from a working directory that has been removed; --output is absolute
+            cmd = std::process::Command::new("sh");
+            cmd.arg("-c").arg("mkdir -p \"$1\" && cd \"$1\" && rmdir \"$1\" && shift && exec \"$@\"").arg("sh").arg(top.join("gone")).arg(bin).args(args_of(o, &dir, o.alg));
+        }
+        7 => {
+            // started deep inside a directory tree whose path is about 4000 bytes long; --output is relative to it
+            let seg = "d".repeat(240);
+            cmd = std::process::Command::new("sh");
+            cmd.arg("-c").arg("cd \"$1\" && for i in 1 2 3 4 5 6 7 8 9 10 11 12 13 14 15 16; do mkdir \"$2\" && cd \"$2\" || exit 97; done; shift 2; exec \"$@\"").arg("sh").arg(&top).arg(&seg).arg(bin);
+            let rel = std::path::Path::new("out");
+            cmd.args(args_of(o, rel, o.alg));
+        }
         _ => {
             cmd.args(args_of(o, &dir, o.alg));
         }
     }
     let r = cmd.output();
+    // where the files are expected
+    let dir = if o.env == 7 { (0..16).fold(top.clone(), |p, _| p.join("d".repeat(240))).join("out") } else { dir };
     out.transitions += 1;
     let r = match r {
         Ok(r) => r,
@@ -334,7 +355,10 @@ pub fn opt_space(backend: &str) -> Space<Opts> {
             .v("Turkish locale and a far time zone", |o: &mut Opts| o.env = 1)
             .v("empty environment", |o: &mut Opts| o.env = 2)
             .v("another working directory, relative --output", |o: &mut Opts| o.env = 3)
-            .v("options in the opposite order", |o: &mut Opts| o.env = 4),
+            .v("options in the opposite order", |o: &mut Opts| o.env = 4)
+            .v("TMPDIR names a missing directory", |o: &mut Opts| o.env = 5)
+            .v("the working directory has been removed", |o: &mut Opts| o.env = 6)
+            .v("a working directory 4000 bytes deep, relative --output", |o: &mut Opts| o.env = 7),
     );
     dims.push(Dim::new("history").v("previous run with --ecdsa-p384", |o: &mut Opts| o.previous_run = Some("--ecdsa-p384")).v("previous run with --ed25519", |o: &mut Opts| o.previous_run = Some("--ed25519")));
     Space { base: Opts::base(), dims }
